@@ -2,6 +2,7 @@ package mon
 
 import (
 	"fmt"
+	"math/rand/v2"
 	"sort"
 	"strings"
 	"verif/jsstr"
@@ -221,7 +222,10 @@ func classOfItem(it reflex.Item) string {
 func runC08(t *fw.T) {
 	r := t.Rand()
 	o := gen.SynOpts{ExprDepth: 2 + r.IntN(4), StmtDepth: 1 + r.IntN(3), MaxStmts: 1 + r.IntN(5), NumDot: r.IntN(4) == 0}
-	prog := gen.NewSyn(r, o).Program()
+	checkC08Prog(t, r, gen.NewSyn(r, o).Program())
+}
+
+func checkC08Prog(t *fw.T, r *rand.Rand, prog *gen.Node) {
 	l := stdLayouts[r.IntN(len(stdLayouts))]
 	if r.IntN(3) == 0 {
 		l = randomLayout(r)
